@@ -250,6 +250,29 @@ func RunC17(c *Ctx) {
 			}
 		}
 	}
+	// boundary code points of the UTF-8 encoding lengths and of the surrogate gap, valid, next to
+	// an invalid byte (so that no valid-string fast path hides the conversion) and in pairs
+	// (seeded change C17r8-m2: a hand-written AppendRune with 'r < utf8.MaxRune' loses U+10FFFF)
+	bc := &h.Case{Family: "boundary-code-points"}
+	bps := []rune{0x00, 0x7f, 0x80, 0x7ff, 0x800, 0xd7ff, 0xe000, 0xfffd, 0xfffe, 0xffff, 0x10000, 0x10ffff, 0x10fffe, 0xfdd0}
+	bcount := 0
+	for _, r1 := range bps {
+		for _, r2 := range bps {
+			for _, shape := range []string{"%s%s", "\xff%s%s", "%s\x80%s", "%s%s\xc3", "a%sb%s\xf4\x90\x80\x80"} {
+				bcount++
+				if c.NShards > 1 && bcount%c.NShards != c.Shard {
+					continue
+				}
+				b := []byte(fmt.Sprintf(shape, string(r1), string(r2)))
+				c.Rec.R.Cases++
+				c.Rec.R.Nontrivial++
+				c.Rec.C("boundary_code_point_cases")
+				bc.Input = b
+				bc.Desc = fmt.Sprintf("U+%04X and U+%04X in shape %q", r1, r2, shape)
+				checkCompatString(c, bc, b)
+			}
+		}
+	}
 	// window straddle: long strings in which a valid multi-byte character lies across a multiple of
 	// a power of two (fixed-size conversion windows must not split it), with and without an
 	// invalid byte elsewhere (seeded change C17r5-m1: 512-byte windows behind a utf8.ValidString
